@@ -355,7 +355,7 @@ package apd
 //@ define etiny(c: *Context): int = c.MinExponent - c.Precision + 1
 
 //@ define SEflags(c: *Context, nz: bool, sub: bool, rb: bool, ovf: bool, r: int, q2: int, res0: cond): cond = res0 | flag(sub && nz, Subnormal) | flag(rb && r != 0, Inexact) | flag(rb && q2 == 0, Clamped) | flag(rb, Rounded) | flag(ovf && !nz, Clamped) | flag(ovf && nz, Overflow | Inexact)
-//@ define SEmain(c: *Context, form0: int, neg: bool, C: int, E: int, adj: int, res0: cond, d: *Decimal, ret: cond): bool = let nz = !(form0 == Finite && C == 0) in let Et = etiny(c) in let sub = adj < c.MinExponent in let rb = sub && E < Et in let ovf = !sub && adj > c.MaxExponent in let T = pow10(Et - E) in let q = div(C, T) in let r = mod(C, T) in let q2 = q + ite(r != 0 && incr(c.Rounding, neg, q, sgn(2 * r - T)), 1, 0) in let resA = SEflags(c, nz, sub, rb, ovf, r, q2, res0) in ret == (resA | flag(has(resA, Inexact) && has(resA, Subnormal), Underflow)) && val(d.Coeff) == ite(rb, q2, C) && d.Exponent == ite(rb, Et, ite(ovf && !nz, c.MaxExponent, E)) && d.Form == ite(ovf && nz, Infinite, form0)
+//@ define SEmain(c: *Context, form0: int, neg: bool, C: int, E: int, adj: int, res0: cond, d: *Decimal, ret: cond): bool = let nz = !(form0 == Finite && C == 0) in let Et = etiny(c) in let sub = adj < c.MinExponent in let rb = sub && E < Et in let ovf = !sub && adj > c.MaxExponent in let T = pow10(Et - E) in let q = div(C, T) in let r = mod(C, T) in let q2 = q + ite(r != 0 && incr(c.Rounding, neg, q, sgn(2 * r - T)), 1, 0) in let resA = SEflags(c, nz, sub, rb, ovf, r, q2, res0) in (ret &^ (Rounded | Clamped)) == ((resA | flag(has(resA, Inexact) && has(resA, Subnormal), Underflow)) &^ (Rounded | Clamped)) && (rb && r != 0 ==> has(ret, Rounded)) && (ret & res0) == res0 && val(d.Coeff) == ite(rb, q2, C) && d.Exponent == ite(rb, Et, ite(ovf && !nz, c.MaxExponent, E)) && d.Form == ite(ovf && nz, Infinite, form0)
 
 //@ func (*Decimal).setExponent
 //@   props C01 C02 C07 C20
@@ -385,18 +385,25 @@ package apd
 
 //@ define RZero(c: *Context, neg: bool, E: int, d: *Decimal, ret: cond): bool = d.Form == Finite && val(d.Coeff) == 0 && d.Negative == neg && d.Exponent == ite(E < etiny(c), etiny(c), ite(E > c.MaxExponent, c.MaxExponent, E)) && only(ret, Clamped | Rounded)
 //@ define RSub(c: *Context, neg: bool, C: int, E: int, d: *Decimal, ret: cond): bool = d.Form == Finite && d.Negative == neg && val(d.Coeff) == RND(c.Rounding, neg, C, SSH(c, E)) && d.Exponent == max(E, etiny(c)) && has(ret, Subnormal) && (has(ret, Inexact) <==> RR(C, SSH(c, E)) != 0) && (has(ret, Underflow) <==> RR(C, SSH(c, E)) != 0) && (has(ret, Inexact) ==> has(ret, Rounded)) && only(ret, Subnormal | Inexact | Underflow | Rounded | Clamped)
-//@ define ROvf(neg: bool, d: *Decimal, ret: cond): bool = d.Form == Infinite && d.Negative == neg && has(ret, Overflow) && has(ret, Inexact) && only(ret, Overflow | Inexact | Rounded)
-//@ define RNorm(c: *Context, neg: bool, C: int, E: int, d: *Decimal, ret: cond): bool = d.Form == Finite && d.Negative == neg && val(d.Coeff) == NCOEF(c, neg, C) && d.Exponent == NEXP(c, neg, C, E) && (has(ret, Inexact) <==> RR(C, NSH(c, C)) != 0) && (has(ret, Inexact) ==> has(ret, Rounded)) && only(ret, Inexact | Rounded)
+//@ define ROvf(neg: bool, d: *Decimal, ret: cond): bool = d.Form == Infinite && d.Negative == neg && has(ret, Overflow) && has(ret, Inexact) && only(ret, Overflow | Inexact | Rounded | Clamped)
+//@ define RNorm(c: *Context, neg: bool, C: int, E: int, d: *Decimal, ret: cond): bool = d.Form == Finite && d.Negative == neg && val(d.Coeff) == NCOEF(c, neg, C) && d.Exponent == NEXP(c, neg, C, E) && (has(ret, Inexact) <==> RR(C, NSH(c, C)) != 0) && (has(ret, Inexact) ==> has(ret, Rounded)) && only(ret, Inexact | Rounded | Clamped)
 
 // Rounded: d and ret are the exact value (-1)^neg*C*10^E rounded once to context c (Precision >= 1).
-//@ define Rounded(c: *Context, neg: bool, C: int, E: int, d: *Decimal, ret: cond): bool = ite(E < -100000 || E > 100000, has(ret, SystemOverflow | SystemUnderflow), ite(C == 0, RZero(c, neg, E, d, ret), ite(E + nd10(C) - 1 < c.MinExponent, RSub(c, neg, C, E, d, ret), ite(NSYS(c, neg, C, E), has(ret, SystemOverflow), ite(NADJ(c, neg, C, E) > c.MaxExponent, ROvf(neg, d, ret), RNorm(c, neg, C, E, d, ret))))))
+//@ define opaque RoundedNS(c: *Context, neg: bool, C: int, E: int, d: *Decimal, ret: cond): bool = ite(C == 0, RZero(c, neg, E, d, ret), ite(E + nd10(C) - 1 < c.MinExponent, RSub(c, neg, C, E, d, ret), ite(NADJ(c, neg, C, E) > c.MaxExponent, ROvf(neg, d, ret), RNorm(c, neg, C, E, d, ret))))
+//@ define hassys(ret: cond): bool = has(ret, SystemOverflow | SystemUnderflow)
+// Rounded: unless a system exponent limit was hit (reported as an error, C03), d and ret are the exact value rounded once to c.
+//@ define Rounded(c: *Context, neg: bool, C: int, E: int, d: *Decimal, ret: cond): bool = hassys(ret) || RoundedNS(c, neg, C, E, d, ret)
+// SysIff: a system flag is raised exactly when an exponent limit of the package is genuinely exceeded.
+//@ define opaque SysIff(c: *Context, neg: bool, C: int, E: int, ret: cond): bool = hassys(ret) <==> (E < -100000 || E > 100000 || (C != 0 && E + nd10(C) - 1 >= c.MinExponent && NSYS(c, neg, C, E)))
 
 //@ define finwf(c: *Context, x: *Decimal): bool = wfctx(c) && inv(x) && x.Form == Finite && -100000 <= x.Exponent && x.Exponent <= 100000
+//@ define finwfI(c: *Context, x: *Decimal): bool = wfctx(c) && inv(x) && x.Form == Infinite && -100000 <= x.Exponent && x.Exponent <= 100000
 //@ define closed(r: cond): bool = only(r, 4095)
 //@ define trapped(c: *Context, r: cond): bool = has(r, SystemOverflow | SystemUnderflow) || has(r, c.Traps)
 
 //@ func Rounder.Round
 //@   props C01 C02 C07 C20
+//@   reveal RoundedNS SysIff
 //@   requires writable(d) && inv(x)
 //@   assigns d
 //@   hint pow10_add(c.Precision, nd10(val(x.Coeff)) - c.Precision)
@@ -404,7 +411,8 @@ package apd
 //@   hint div_lt(val(x.Coeff), pow10(nd10(val(x.Coeff)) - c.Precision), pow10(c.Precision))
 //@   hint div_ge(val(x.Coeff), pow10(nd10(val(x.Coeff)) - c.Precision), pow10(c.Precision - 1))
 //@   ensures [inv] inv(d) && closed(ret)
-//@   ensures [esys] wfctx(c) && old(x.Form) == Finite && (old(x.Exponent) < -100000 || old(x.Exponent) > 100000) ==> has(ret, SystemOverflow | SystemUnderflow)
+//@   ensures [esys] (disableIfPrecisionZero || c.Precision != 0) && (old(x.Exponent) < -100000 || old(x.Exponent) > 100000) ==> hassys(ret)
+//@   ensures [infovf] old(finwfI(c, x)) && old(x.Exponent) + nd10(old(val(x.Coeff))) - 1 > c.MaxExponent ==> hassys(ret) || (d.Form == Infinite && d.Negative == old(x.Negative) && only(ret, Rounded | Inexact | Overflow | Clamped))
 //@   ensures [zero] old(finwf(c, x)) && r == c.Rounding && old(val(x.Coeff)) == 0 ==> RZero(c, old(x.Negative), old(x.Exponent), d, ret)
 //@   ensures [sub] old(finwf(c, x)) && r == c.Rounding && old(val(x.Coeff)) != 0 && old(x.Exponent) + nd10(old(val(x.Coeff))) - 1 < c.MinExponent ==> RSub(c, old(x.Negative), old(val(x.Coeff)), old(x.Exponent), d, ret)
 //@   ensures [sys] old(finwf(c, x)) && r == c.Rounding && old(val(x.Coeff)) != 0 && old(x.Exponent) + nd10(old(val(x.Coeff))) - 1 >= c.MinExponent ==> (has(ret, SystemOverflow) <==> NSYS(c, old(x.Negative), old(val(x.Coeff)), old(x.Exponent))) && !has(ret, SystemUnderflow)
@@ -449,10 +457,14 @@ package apd
 
 //@ func (*Context).round
 //@   props C01 C02 C07 C20
+//@   reveal RoundedNS SysIff
 //@   requires writable(d) && inv(x)
 //@   assigns d
 //@   ensures [inv] inv(d) && closed(ret)
 //@   ensures [rounded] wfctx(c) && old(x.Form) == Finite ==> Rounded(c, old(x.Negative), old(val(x.Coeff)), old(x.Exponent), d, ret)
+//@   ensures [sysiff] wfctx(c) && old(x.Form) == Finite ==> SysIff(c, old(x.Negative), old(val(x.Coeff)), old(x.Exponent), ret)
+//@   ensures [esys] old(x.Exponent) < -100000 || old(x.Exponent) > 100000 ==> hassys(ret)
+//@   ensures [infovf] old(finwfI(c, x)) && old(x.Exponent) + nd10(old(val(x.Coeff))) - 1 > c.MaxExponent ==> hassys(ret) || (d.Form == Infinite && d.Negative == old(x.Negative) && only(ret, Rounded | Inexact | Overflow | Clamped))
 
 //@ func upscale
 //@   props C01 C10 C15
@@ -460,3 +472,103 @@ package apd
 //@   assigns tmp
 //@   ensures [err] ret3 != nil <==> abs(a.Exponent - b.Exponent) > 100000
 //@   ensures [scale] ret3 == nil ==> (ret2 == min(a.Exponent, b.Exponent) && val(ret0) == old(val(a.Coeff)) * pow10(a.Exponent - min(a.Exponent, b.Exponent)) && val(ret1) == old(val(b.Coeff)) * pow10(b.Exponent - min(a.Exponent, b.Exponent)) && (ret0 == a.Coeff || ret0 == tmp) && (ret1 == b.Coeff || ret1 == tmp) && ret0 != nil && ret1 != nil)
+
+// special values, unary and binary (C08)
+//@ define NaN1(x: *Decimal, d: *Decimal, ret: cond): bool = old(isnan(x)) ==> (d.Form == NaN && d.Negative == old(x.Negative) && d.Exponent == old(x.Exponent) && val(d.Coeff) == old(val(x.Coeff)) && ret == flag(old(x.Form) == NaNSignaling, InvalidOperation))
+//@ define NaN2(x: *Decimal, y: *Decimal, d: *Decimal, ret: cond): bool = old(isnan(x) || isnan(y)) ==> (d.Form == NaN && d.Negative == old(nanpick(x, y).Negative) && d.Exponent == old(nanpick(x, y).Exponent) && val(d.Coeff) == old(val(nanpick(x, y).Coeff)) && ret == flag(old(nanpick(x, y).Form) == NaNSignaling, InvalidOperation))
+//@ define Inf1(x: *Decimal, neg: bool, d: *Decimal, ret: cond): bool = old(x.Form) == Infinite ==> (d.Form == Infinite && d.Negative == neg && ret == 0)
+
+//@ func (*Context).Round
+//@   props C01 C02 C03 C05 C06 C07 C08 C20
+//@   exported
+//@   requires writable(d) && inv(x)
+//@   assigns d
+//@   ensures [closed] closed(ret0) && inv(d)
+//@   ensures [trap] ret1 != nil <==> trapped(c, ret0)
+//@   ensures [rounded] wfctx(c) && old(x.Form) == Finite ==> Rounded(c, old(x.Negative), old(val(x.Coeff)), old(x.Exponent), d, ret0)
+//@   ensures [sysiff] wfctx(c) && old(x.Form) == Finite ==> SysIff(c, old(x.Negative), old(val(x.Coeff)), old(x.Exponent), ret0)
+//@   ensures [nan] NaN1(x, d, ret0)
+//@   ensures [inf] Inf1(x, old(x.Negative), d, ret0)
+
+//@ define sgnv(neg: bool): int = ite(neg, -1, 1)
+//@ define signed(neg: bool, m: int): int = ite(neg, -m, m)
+//@ define addS(x: *Decimal, y: *Decimal, yn: bool): int = signed(x.Negative, val(x.Coeff) * pow10(x.Exponent - min(x.Exponent, y.Exponent))) + signed(yn, val(y.Coeff) * pow10(y.Exponent - min(x.Exponent, y.Exponent)))
+//@ define addNeg(c: *Context, x: *Decimal, yn: bool, S: int): bool = ite(S < 0, true, ite(S > 0, false, ite(x.Negative == yn, yn, c.Rounding == RoundFloor)))
+//@ define bothfin(x: *Decimal, y: *Decimal): bool = x.Form == Finite && y.Form == Finite
+//@ define gap(x: *Decimal, y: *Decimal): bool = abs(x.Exponent - y.Exponent) > 100000
+
+//@ func (*Context).add
+//@   props C01 C02 C03 C05 C06 C07 C08 C20
+//@   requires writable(d) && inv(x) && inv(y)
+//@   assigns d
+//@   ensures [closed] closed(ret0)
+//@   ensures [trap] ret1 != nil <==> (trapped(c, ret0) || old(bothfin(x, y) && gap(x, y)))
+//@   ensures [nan] NaN2(x, y, d, ret0)
+//@   ensures [infinv] old(!isnan(x) && !isnan(y) && x.Form == Infinite && y.Form == Infinite && x.Negative != (y.Negative != subtract)) ==> (d.Form == NaN && ret0 == InvalidOperation)
+//@   ensures [inf] old(!isnan(x) && !isnan(y) && (x.Form == Infinite || y.Form == Infinite) && !(x.Form == Infinite && y.Form == Infinite && x.Negative != (y.Negative != subtract))) ==> (d.Form == Infinite && d.Negative == old(ite(x.Form == Infinite, x.Negative, y.Negative != subtract)) && ret0 == 0)
+//@   ensures [rounded] wfctx(c) && old(bothfin(x, y) && !gap(x, y)) ==> Rounded(c, old(addNeg(c, x, y.Negative != subtract, addS(x, y, y.Negative != subtract))), abs(old(addS(x, y, y.Negative != subtract))), old(min(x.Exponent, y.Exponent)), d, ret0)
+
+//@ func (*Context).Add
+//@   props C01 C02 C03 C05 C06 C07 C08 C20
+//@   exported
+//@   requires writable(d) && inv(x) && inv(y)
+//@   assigns d
+//@   ensures [closed] closed(ret0)
+//@   ensures [trap] ret1 != nil <==> (trapped(c, ret0) || old(bothfin(x, y) && gap(x, y)))
+//@   ensures [nan] NaN2(x, y, d, ret0)
+//@   ensures [infinv] old(!isnan(x) && !isnan(y) && x.Form == Infinite && y.Form == Infinite && x.Negative != y.Negative) ==> (d.Form == NaN && ret0 == InvalidOperation)
+//@   ensures [inf] old(!isnan(x) && !isnan(y) && (x.Form == Infinite || y.Form == Infinite) && !(x.Form == Infinite && y.Form == Infinite && x.Negative != y.Negative)) ==> (d.Form == Infinite && d.Negative == old(ite(x.Form == Infinite, x.Negative, y.Negative)) && ret0 == 0)
+//@   ensures [rounded] wfctx(c) && old(bothfin(x, y) && !gap(x, y)) ==> Rounded(c, old(addNeg(c, x, y.Negative != false, addS(x, y, y.Negative != false))), abs(old(addS(x, y, y.Negative != false))), old(min(x.Exponent, y.Exponent)), d, ret0)
+
+//@ func (*Context).Sub
+//@   props C01 C02 C03 C05 C06 C07 C08 C20
+//@   exported
+//@   requires writable(d) && inv(x) && inv(y)
+//@   assigns d
+//@   ensures [closed] closed(ret0)
+//@   ensures [trap] ret1 != nil <==> (trapped(c, ret0) || old(bothfin(x, y) && gap(x, y)))
+//@   ensures [nan] NaN2(x, y, d, ret0)
+//@   ensures [infinv] old(!isnan(x) && !isnan(y) && x.Form == Infinite && y.Form == Infinite && x.Negative == y.Negative) ==> (d.Form == NaN && ret0 == InvalidOperation)
+//@   ensures [inf] old(!isnan(x) && !isnan(y) && (x.Form == Infinite || y.Form == Infinite) && !(x.Form == Infinite && y.Form == Infinite && x.Negative == y.Negative)) ==> (d.Form == Infinite && d.Negative == old(ite(x.Form == Infinite, x.Negative, !y.Negative)) && ret0 == 0)
+//@   ensures [rounded] wfctx(c) && old(bothfin(x, y) && !gap(x, y)) ==> Rounded(c, old(addNeg(c, x, y.Negative != true, addS(x, y, y.Negative != true))), abs(old(addS(x, y, y.Negative != true))), old(min(x.Exponent, y.Exponent)), d, ret0)
+
+//@ func (*Context).Abs
+//@   props C01 C02 C03 C05 C06 C07 C08
+//@   exported
+//@   requires writable(d) && inv(x)
+//@   assigns d
+//@   ensures [closed] closed(ret0) && inv(d)
+//@   ensures [trap] ret1 != nil <==> trapped(c, ret0)
+//@   ensures [rounded] wfctx(c) && old(x.Form) == Finite ==> Rounded(c, false, old(val(x.Coeff)), old(x.Exponent), d, ret0)
+//@   ensures [nan] NaN1(x, d, ret0)
+//@   ensures [inf] Inf1(x, false, d, ret0)
+
+//@ func (*Context).Neg
+//@   props C01 C02 C03 C05 C06 C07 C08
+//@   exported
+//@   requires writable(d) && inv(x)
+//@   assigns d
+//@   ensures [closed] closed(ret0) && inv(d)
+//@   ensures [trap] ret1 != nil <==> trapped(c, ret0)
+//@   ensures [rounded] wfctx(c) && old(x.Form) == Finite ==> Rounded(c, old(ite(val(x.Coeff) == 0, false, !x.Negative)), old(val(x.Coeff)), old(x.Exponent), d, ret0)
+//@   ensures [nan] NaN1(x, d, ret0)
+//@   ensures [inf] Inf1(x, !old(x.Negative), d, ret0)
+
+//@ func (*Context).Mul
+//@   props C01 C02 C03 C05 C06 C07 C08 C20
+//@   reveal RoundedNS SysIff
+//@   exported
+//@   requires writable(d) && inv(x) && inv(y)
+//@   assigns d
+//@   ensures [closed] closed(ret0)
+//@   ensures [trap] ret1 != nil <==> trapped(c, ret0)
+//@   ensures [nan] NaN2(x, y, d, ret0)
+//@   ensures [infinv] old(!isnan(x) && !isnan(y) && (x.Form == Infinite || y.Form == Infinite) && (iszero(x) || iszero(y))) ==> (d.Form == NaN && ret0 == InvalidOperation)
+//@   ensures [inf] old(!isnan(x) && !isnan(y) && (x.Form == Infinite || y.Form == Infinite) && !(iszero(x) || iszero(y))) ==> (d.Form == Infinite && d.Negative == old(x.Negative != y.Negative) && ret0 == 0)
+//@   hint pow10_add(c.Precision, nd10(val(x.Coeff) * val(y.Coeff)) - c.Precision)
+//@   hint pow10_add(c.Precision - 1, nd10(val(x.Coeff) * val(y.Coeff)) - c.Precision)
+//@   hint div_lt(val(x.Coeff) * val(y.Coeff), pow10(nd10(val(x.Coeff) * val(y.Coeff)) - c.Precision), pow10(c.Precision))
+//@   hint div_ge(val(x.Coeff) * val(y.Coeff), pow10(nd10(val(x.Coeff) * val(y.Coeff)) - c.Precision), pow10(c.Precision - 1))
+//@   hint pow10_add(c.Precision - 1, etiny(c) - (x.Exponent + y.Exponent))
+//@   hint div_lt(val(x.Coeff) * val(y.Coeff), pow10(etiny(c) - (x.Exponent + y.Exponent)), pow10(c.Precision - 1))
+//@   ensures [rounded] wfctx(c) && old(bothfin(x, y)) && old(-100000 <= x.Exponent && x.Exponent <= 100000 && -100000 <= y.Exponent && y.Exponent <= 100000) ==> Rounded(c, old(x.Negative != y.Negative), old(val(x.Coeff) * val(y.Coeff)), old(x.Exponent + y.Exponent), d, ret0)
